@@ -35,10 +35,10 @@ CHECKS = {
     text="Arithmetic prefix of the label order and closed_plus proved over the full domain; the property statement itself (exact distances, tree, first(), reverse- and sub-path consistency for every ordered pair) is a bounded stand-in on all labelled graphs n<=6, tie-heavy families and seeded random graphs.",
     note="lex_dijkstra (Boost heap, std::set labels) cannot be parsed by CBMC; exact-domain weights; the set-difference tail of the comparator is checked natively on all equal-size subsets of {0..5}."),
  "C13": dict(
-    engine="E3", category="exploration", design_ref="DESIGN.md 4/C13, 3 (K13)",
-    technique="bounded enforcement of the greedy_fvs contract (union-find acyclicity oracle) on all labelled graphs n<=6 plus families and seeded graphs; no deductive content (function outside CBMC's reach)",
-    text="Bounded stand-in only: exhaustive over all labelled graphs with at most 6 vertices, plus tie-heavy families and seeded random graphs with pendant trees; nothing is proved.",
-    note="greedy_fvs uses a Boost pairing heap with handles and std::map priorities; neither CBMC route parses it."),
+    engine="E1+E3", category="other", design_ref="DESIGN.md 4/C13, 3 (K13), 10.9",
+    technique="CBMC DFCC loop contracts on the extracted greedy_fvs (eight loops; invariants quantified over the bounded vertex range with explicit neighbour counts; deque and pairing heap through their contracts) for n<=4 (thorough 5) + bounded enforcement of the whole contract (union-find acyclicity oracle) on all labelled graphs n<=6 plus families and seeded graphs",
+    text="Proved for n<=4/5: everything is removed, each vertex emitted at most once, a vertex removed without being emitted has at most one remaining neighbour, after the first cleanup every remaining vertex has two remaining neighbours, heap handles valid; acyclicity of the remainder and 'forest emits nothing' follow by two informal lemmas. Bounded stand-in: exhaustive over all labelled graphs with at most 6 vertices, plus tie-heavy families and seeded random graphs with pendant trees.",
+    note="Termination of the cleanup loops not proved. Deque as multiset, heap as set with arbitrary top (over-approximations of the containers)."),
  "C14": dict(
     engine="E1+E3", category="other", design_ref="DESIGN.md 4/C14, 3 (K14)",
     technique="CBMC DFCC loop contracts on the extracted SPTree::create_candidate_cycles (emission iff-condition, recorded weight) + bounded enforcement of the collection contracts (soundness of each candidate, nesting, sufficiency by greedy GF(2) selection against the brute-force optimum)",
